@@ -67,18 +67,79 @@ class Recorder:
         return self.fn(*p)
 
 
+def _num(v, form):
+    """one scalar in the requested (valid) argument form; the generator only asks for forms that
+    represent the value exactly"""
+    if form == "int":
+        return int(v)
+    if form == "np64":
+        return np.float64(v)
+    if form == "np32":
+        return np.float32(v)
+    if form == "bool":
+        return bool(v)
+    return float(v)
+
+
+def wrap_function(fn, form, dim):
+    """the wrapped function in one of the forms the constructor accepts (autowrap_functionNd)"""
+    if form == "partial":
+        import functools
+        return functools.partial(fn)
+    if form == "lambda":
+        return (lambda *p: fn(*p))
+    if form == "pyfunc":
+        if dim == 1:
+            from raysect.core.math.function.float.function1d.autowrap import PythonFunction1D as W
+        elif dim == 2:
+            from raysect.core.math.function.float.function2d.autowrap import PythonFunction2D as W
+        else:
+            from raysect.core.math.function.float.function3d.autowrap import PythonFunction3D as W
+        return W(fn)
+    return fn
+
+
 def build(case, fn, with_fb=True):
     dim = case["dim"]
-    area = tuple(case["area"])
-    res = case["res"][0] if dim == 1 else tuple(case["res"])
-    fb = tuple(case["fb"]) if (with_fb and case["fb"] is not None) else None
-    return CLS[dim](fn, area, res, no_boundary_error=bool(case["nbe"]), function_boundaries=fb)
+    forms = case.get("forms", {})
+    af, rf = forms.get("area", "float"), forms.get("res", "float")
+    area = tuple(_num(v, af) for v in case["area"])
+    res = _num(case["res"][0], rf) if dim == 1 else tuple(_num(v, rf) for v in case["res"])
+    if forms.get("bad") == "list_area":
+        area = list(area)
+    if forms.get("bad") == "list_res" and dim > 1:
+        res = list(res)
+    fb = None
+    if with_fb and case["fb"] is not None:
+        ff = forms.get("fb", "tuple")
+        vals = [_num(v, "int" if ff == "int" else "float") for v in case["fb"]]
+        fb = {"tuple": tuple, "int": tuple, "list": list, "nparray": np.array}[ff](vals)
+    nbe = int(bool(case["nbe"])) if forms.get("nbe") == "int" else bool(case["nbe"])
+    fn = wrap_function(fn, forms.get("fn", "plain"), dim)
+    style = forms.get("style", "keyword")
+    if style == "positional":
+        return CLS[dim](fn, area, res, nbe, fb)
+    if style == "defaults":
+        kw = {}
+        if nbe:
+            kw["no_boundary_error"] = nbe
+        if fb is not None:
+            kw["function_boundaries"] = fb
+        return CLS[dim](fn, area, res, **kw)
+    return CLS[dim](fn, area, res, no_boundary_error=nbe, function_boundaries=fb)
 
 
-def call(obj, p):
-    """-> (kind, value): kind 0 returned, 2 ValueError, 3 any other exception"""
+def call(obj, p, form="float", route="call"):
+    """-> (kind, value): kind 0 returned, 2 ValueError, 3 any other exception.
+    form: how the coordinates are passed; route: obj(p) or through raysect function arithmetic
+    ((obj * 1.0)(p), which reaches the cdef evaluate() instead of __call__)"""
     try:
-        return 0, float(obj(*p))
+        if form == "np0d":
+            args = [np.array(v) for v in p]
+        else:
+            args = [_num(v, form) for v in p]
+        target = (obj * 1.0) if route == "mul1" else obj
+        return 0, float(target(*args))
     except ValueError:
         return 2, 0.0
     except Exception as e:  # noqa: BLE001  (reported, not swallowed: kind 3 is always a disagreement)
@@ -95,33 +156,51 @@ def run_case(case):
     fn = make_function(case["fn"], dim)
     rec = Recorder(fn)
     out = {"id": case["id"]}
+    if case["fn"]["kind"] == "poly" and case.get("forms", {}).get("fn") == "const":
+        rec = float(case["fn"]["const_value"])          # a number is accepted as a constant wrapped function
+        fn = (lambda *p, _v=rec: _v)
     try:
         obj = build(case, rec)
         out["ctor"] = "ok"
     except ValueError:
         out["ctor"] = "ValueError"
         return out
+    except TypeError as e:
+        out["ctor"] = "TypeError"
+        out["ctor_msg"] = repr(e)[:200]
+        return out
     except Exception as e:  # noqa: BLE001  (reported: any other exception from the constructor is a disagreement)
         out["ctor"] = "error: " + repr(e)[:200]
         return out
     axes = axes_of(obj, dim)
     out["axes"] = axes
-    out["ctor_calls"] = len(rec.calls)
+    recording = isinstance(rec, Recorder)
+    out["ctor_calls"] = len(rec.calls) if recording else 0
+    forms = case.get("forms", {})
+    cform, route = forms.get("call", "float"), forms.get("route", "call")
+    # a second live object, same history, built WITHOUT function_boundaries
+    twin = build(case, fn, with_fb=False) if case["fb"] is not None else None
     steps = []
     for p in case["pts"]:
-        rec.calls = []
-        kind, val = call(obj, p)
-        st = {"kind": kind, "value": val, "calls": [list(c) for c in rec.calls]}
-        # the same point on a fresh object
+        if recording:
+            rec.calls = []
+        kind, val = call(obj, p, cform, route)
+        st = {"kind": kind, "value": val, "calls": [list(c) for c in rec.calls] if recording else []}
+        # the same point on a fresh object (plain float arguments, plain call)
         fresh = build(case, fn)
         fk, fv = call(fresh, p)
         st["fresh"] = [fk, fv]
-        if case["fb"] is not None:
-            nofb = build(case, fn, with_fb=False)
-            nk, nv = call(nofb, p)
+        if twin is not None:
+            nk, nv = call(twin, p)
             st["nofb"] = [nk, nv]
         st["f"] = call(fn, p)[1]
         steps.append(st)
+    # a third live object driven through the REVERSED history: per point the value must be the same bits
+    other = build(case, fn)
+    rev = [None] * len(case["pts"])
+    for i in range(len(case["pts"]) - 1, -1, -1):
+        rev[i] = list(call(other, case["pts"][i]))
+    out["rev"] = rev
     out["steps"] = steps
     calc = np.asarray(obj.calculated_view)
     data = np.asarray(obj.data_view)
